@@ -129,6 +129,10 @@ func (w *simWorld) editDefinedSet(e *setEdit) error {
 		}
 		return &api.DefinedSet{DefinedType: api.DefinedType_DEFINED_TYPE_COMMUNITY, Name: "cs-" + e.Policy, List: members}
 	}
+	if e.Replace {
+		w.probe("defined_set_replaced_" + e.Kind)
+		return w.s.AddDefinedSet(ctx, &api.AddDefinedSetRequest{DefinedSet: mk(e.Final), Replace: true})
+	}
 	if len(e.Remove) > 0 {
 		if err := w.s.DeleteDefinedSet(ctx, &api.DeleteDefinedSetRequest{DefinedSet: mk(e.Remove), All: false}); err != nil {
 			return err
